@@ -51,6 +51,11 @@ def drivers(curves):
                 # a valid encoding of seed*G in this format (replay material only)
                 ds.append(Driver("drv_%s_valid_%d" % (c, n), [("seed", "in", 8, 1), ("out", "out", 1, n)],
                                  "        *out = %s::Point::mulgen(&%s::Scalar::from_u64(seed[0])).%s;" % (mod, mod, encf)))
+            if n == L or (c in ("p256", "secp256k1") and n in (33, 65)):
+                # decode then re-encode in the same format (closed-case replay only)
+                ds.append(Driver("drv_%s_rt_%d" % (c, n), [("buf", "in", 1, n), ("out", "out", 1, n), ("st", "out", 4, 1)],
+                                 "        match %s::Point::decode(&buf[..]) { Some(p) => { *out = p.%s; st[0] = 1; } None => { *out = [0u8; %d]; st[0] = 0; } }"
+                                 % (mod, encf, n)))
             ds.append(Driver("drv_%s_sd_%d" % (c, n), [("buf", "in", 1, n), ("out", "out", 8, pw), ("st", "out", 4, 1)],
                              "        let mut p = %s::Point::NEUTRAL;\n        let r = p.set_decode(&buf[..]);\n"
                              "        *out = unsafe { transmute::<%s::Point, [u64; %d]>(p) }; st[0] = r;" % (mod, mod, pw)))
@@ -331,7 +336,8 @@ SPECIAL = {
     "jq255s": [("neutral (all zero)", [0] * 32, True), ("u = p", _le(F.P255S, 32), False), ("top bit set", [0] * 31 + [0x80], False)],
     "gls254": [("neutral (all zero)", [0] * 32, True), ("bit 127 set", [0] * 15 + [0x80] + [0] * 16, False),
                ("bit 255 set", [0] * 31 + [0x80], False)],
-    "p256": [("33 zero bytes", [0] * 33, False),
+    "p256": [("33 zero bytes", [0] * 33, False), ("x = 0 with 02 (a finite point: b is a square)", [2] + [0] * 32, True),
+             ("x = 0 with 03", [3] + [0] * 32, True),
              ("x = p with 02", [2] + list(F.P256.to_bytes(32, "big")), False)],
     "secp256k1": [("33 zero bytes", [0] * 33, False), ("x = p with 02", [2] + list(F.PSECP.to_bytes(32, "big")), False),
                   ("x = 1 (on curve? y^2 = 8: not a square)", [2] + [0] * 31 + [1], None)],
@@ -353,6 +359,29 @@ def ground_facts(built, curves):
             if not ok:
                 gf["failed"] += 1
                 bad.append((c, label, enc, nat["st"][0], want))
+            # an accepted special encoding must be reproduced by the encoder (one encoding per element)
+            rt = "drv_%s_rt_%d" % (c, len(enc))
+            if ok and want and rt in built.drivers:
+                r2 = built.native(rt, {"buf": enc})
+                same = r2["st"][0] == 1 and list(r2["out"]) == list(enc)
+                gf["checked"] += 1
+                gf["facts"].append({"curve": c, "case": label + " (re-encoding)", "holds": same})
+                if not same:
+                    gf["failed"] += 1
+                    bad.append((c, label + " re-encoded", enc, r2["st"][0], "reproduced by encode"))
+        # valid encodings of a few multiples of the generator: decode . encode is the identity on them
+        for n_ in lengths(c):
+            vd, rt = "drv_%s_valid_%d" % (c, n_), "drv_%s_rt_%d" % (c, n_)
+            if vd in built.drivers and rt in built.drivers:
+                for seed in (1, 2, 3, 0xFFFFFFFF, 0x123456789ABCDEF):
+                    e_ = built.native(vd, {"seed": [seed]})["out"]
+                    r2 = built.native(rt, {"buf": list(e_)})
+                    same = r2["st"][0] == 1 and list(r2["out"]) == list(e_)
+                    gf["checked"] += 1
+                    if not same:
+                        gf["failed"] += 1
+                        gf["facts"].append({"curve": c, "case": "encode(decode(encode(%d*G)))" % seed, "holds": False})
+                        bad.append((c, "encoding of %d*G (len %d) re-encoded" % (seed, n_), list(e_), r2["st"][0], "reproduced by encode"))
     return gf, bad
 
 
@@ -391,9 +420,9 @@ def run(tier, only=None):
     gf, bad = ground_facts(built, curves)
     for c, label, enc, st_, want in bad:
         o = Obligation("default:%s.set_decode:special[%s]" % (c, label), "ground", ["%s::Point::set_decode" % CURVES[c][0]],
-                       "one closed case", "this specific encoding must be %s" % ("accepted" if want else "rejected"))
+                       "one closed case", "this specific encoding must be %s" % (want if isinstance(want, str) else ("accepted" if want else "rejected")))
         o.fail({"key": "%s.set_decode.special[%s]" % (c, label), "inputs": {"buf": bytes(enc).hex()}, "status": hex(st_),
-                "expected_accept": want, "found_by": "ground fact (native run of a closed case)"}, "native", 0.0, 0)
+                "expected": want, "found_by": "ground fact (native run of a closed case)"}, "native", 0.0, 0)
         obs.append(o)
     built.close()
     return finish("C06", tier, obs, t0, ground_facts=gf,
